@@ -62,6 +62,15 @@ def _same_constant(a, b) -> bool:
     return a == b
 
 
+def _same_element(a, b) -> bool:
+    """Whether two lattice elements are the same: bottom (`None`) and top by
+    identity, two constants as the meet compares them (a NaN is the same
+    constant as itself although it is `!=` to itself)."""
+    if a is None or b is None or a is _TOP or b is _TOP:
+        return a is b
+    return _same_constant(a, b)
+
+
 class _PartialEvalInstance(DefaultVisitor):
     """
     Partial evaluation instance for a function.
@@ -400,7 +409,7 @@ class _PartialEvalInstance(DefaultVisitor):
                 rhs = self.by_def.get(self.def_use.defs[phi.rhs], _TOP)
                 new = self._meet(lhs, rhs)
                 old = self.by_def.get(phi)
-                if new != old:
+                if not _same_element(new, old):
                     if new is None:
                         self.by_def.pop(phi, None)
                     else:
